@@ -5,18 +5,18 @@ import (
 
 	"github.com/streamingfast/bstream"
 	"github.com/streamingfast/substreams"
+	"github.com/streamingfast/substreams/manifest"
 	pbssinternal "github.com/streamingfast/substreams/pb/sf/substreams/intern/v2"
 	pbsubstreamsrpc "github.com/streamingfast/substreams/pb/sf/substreams/rpc/v2"
 	pbsubstreams "github.com/streamingfast/substreams/pb/sf/substreams/v1"
-	"github.com/streamingfast/substreams/manifest"
 	"github.com/streamingfast/substreams/pipeline/cache"
 	"github.com/streamingfast/substreams/pipeline/exec"
 	"github.com/streamingfast/substreams/reqctx"
 	"github.com/streamingfast/substreams/storage/execout"
 	"github.com/streamingfast/substreams/storage/store"
-	"google.golang.org/protobuf/proto"
 	sym "github.com/streamingfast/substreams/zz_verifsym"
 	"go.uber.org/zap"
+	"google.golang.org/protobuf/proto"
 )
 
 type c03Op struct {
